@@ -5,7 +5,7 @@ d=$1; shift
 cd /repo && git apply "$d" || { echo "patch does not apply"; exit 2; }
 cd /verif
 for p in "$@"; do
-  out=$(./check $p 2>&1); rc=$?
+  out=$(VERIF_EVIDENCE_DIR=/verif/build/seed-evidence ./check $p 2>&1); rc=$?
   echo "== $p exit=$rc"
   echo "$out" | grep -E "VIOLATION|UNDECIDED|failed obligation|failing input" | cut -c1-400
 done
